@@ -138,7 +138,7 @@ class CCodeMapper(SimplifyingSortingStringifyMapper):
                 func, self.join_rec(", ", expr.parameters, PREC_NONE))
 
     def map_power(self, expr, enclosing_prec):
-        from pymbolic.mapper.stringifier import PREC_NONE
+        from pymbolic.mapper.stringifier import PREC_NONE, PREC_PRODUCT
         from pymbolic.primitives import is_constant, is_zero
         if is_constant(expr.exponent):
             if is_zero(expr.exponent):
@@ -146,7 +146,15 @@ class CCodeMapper(SimplifyingSortingStringifyMapper):
             elif is_zero(expr.exponent - 1):
                 return self.rec(expr.base, enclosing_prec)
             elif is_zero(expr.exponent - 2):
-                return self.rec(expr.base*expr.base, enclosing_prec)
+                # The square is emitted as a product, but it stands where a
+                # power stood: next to '/', '%' or '*' it must stay together
+                # ('a / (x * x)', not 'a / x * x').
+                square = expr.base*expr.base
+                if not isinstance(square, p.Product):
+                    return self.rec(square, enclosing_prec)
+                return self.parenthesize_if_needed(
+                        self.rec(square, PREC_NONE),
+                        enclosing_prec, PREC_PRODUCT - 1)
 
         return self.format("pow(%s, %s)",
                 self.rec(expr.base, PREC_NONE),
